@@ -9,9 +9,25 @@
    identical results): every operation computes the exact result with the
    "ideal" exponent and then rounds the coefficient to the context precision
    (`_fix`).  Only finite numbers occur (NaN/Infinity are rejected on input by
-   the repaired code).  The exponent range (Emin/Emax = -/+999999) is NOT
-   modelled: exponents are unbounded integers; the harness keeps inputs far
-   inside that range and records the exclusion.
+   the repaired code).
+
+   The file has two layers.
+   * "ideal" arithmetic with unbounded exponents (dfix, dadd, dsub, dmul, ddiv,
+     dcompare, to_integral, dec_to_Z, snap_dec, ideal_convert): the General
+     Decimal Arithmetic rules without an exponent range.  The accuracy theorems
+     are proved about this layer.
+   * the executable model of the code (second half: dfixb, daddb, ..., dcmp,
+     check_convert): Python's default context has Emax = 999999, Emin = -999999;
+     _fix raises decimal.Overflow (a trap) when the rounded result's adjusted
+     exponent exceeds Emax, rounds subnormal results at Etiny = Emin - prec + 1
+     (Underflow / Subnormal / Clamped are not trapped) and clamps the exponent of
+     a zero into [Etiny, Emax].  check_convert also models the two guards of
+     fixes/C14-huge-exponent-format-error.patch (a clamped value with adjusted
+     exponent above 308, and a float() result that is not finite, fail with
+     FormatError).  This layer never builds a power of ten it does not need, so
+     it runs on exponents of any size; Proofs/ConvertBound.v shows it coincides
+     with the ideal layer whenever no intermediate result leaves the normal
+     exponent range.
 
    Definitions only; proofs are in Proofs/Convert*.v. *)
 From Coq Require Import List NArith ZArith Bool.
@@ -219,7 +235,7 @@ Definition snap_dec (v off s : dec) : res cerr dec :=
 
 Definition dzero : dec := mkDec false 0 0.
 
-Definition snap (f : fmt) (omin : option dec) (v s : dec) : res cerr dec :=
+Definition ideal_snap (f : fmt) (omin : option dec) (v s : dec) : res cerr dec :=
   let off := match omin with Some m => m | None => dzero end in
   if is_integer_fmt f && is_integral HalfUp v && is_integral HalfUp off && is_integral HalfUp s
   then Ok (dec_of_Z (snap_int (dec_to_Z v) (dec_to_Z off) (dec_to_Z s)))
@@ -229,19 +245,181 @@ Definition clamp (omin omax : option dec) (v : dec) : dec :=
   let v1 := match omin with Some m => py_max m v | None => v end in
   match omax with Some M => py_min M v1 | None => v1 end.
 
-Definition convert_number (f : fmt) (omin omax ostep : option dec) (r : reading)
+Definition ideal_number (f : fmt) (omin omax ostep : option dec) (r : reading)
   : res cerr cval :=
   match r with
   | RReject | RNonFinite => Err FormatError
   | RFin v =>
       let v2 := clamp omin omax v in
       rbind (match ostep with
-             | Some s => if (dcoef s =? 0)%N then Ok v2 else snap f omin v2 s   (* `if char.minStep:` *)
+             | Some s => if (dcoef s =? 0)%N then Ok v2 else ideal_snap f omin v2 s   (* `if char.minStep:` *)
              | None => Ok v2
              end)
             (fun v3 =>
                if is_integer_fmt f then Ok (VInt (dec_to_Z (to_integral HalfEven v3)))
                else Ok (VDec v3))
+  end.
+
+(* s = str(val) as code points (only the bool format looks at it),
+   r = the decimal reading of val (only the numeric formats look at it) *)
+Definition ideal_convert (f : fmt) (omin omax ostep : option dec)
+           (s : list N) (r : reading) : res cerr cval :=
+  match f with
+  | FBool =>
+      match strtobool s with
+      | Some b => Ok (VInt (if b then 1 else 0))
+      | None => Err FormatError
+      end
+  | _ => ideal_number f omin omax ostep r
+  end.
+
+(* ====================================================================== *)
+(* The executable model: bounded exponents, guards, no needless powers.    *)
+(* ====================================================================== *)
+
+(* Python's default context *)
+Definition emax : Z := 999999.
+Definition emin : Z := (-999999)%Z.
+Definition etiny (cx : ctx) : Z := (emin - Z.of_N (cprec cx) + 1)%Z.
+Definition etop (cx : ctx) : Z := (emax - Z.of_N (cprec cx) + 1)%Z.
+
+(* adjusted exponent: exponent of the leading digit (meaningful for c <> 0) *)
+Definition adjusted (d : dec) : Z := (dexp d + Z.of_N (ndigits (dcoef d)) - 1)%Z.
+
+(* dropping more digits than there are leaves 0 (no power of ten needed) *)
+Definition round_drop_f (m : rmode) (c k : N) : N :=
+  if (ndigits c <? k)%N then 0%N else round_drop m c k.
+
+(* Decimal._fix with Emax / Etiny; None = decimal.Overflow is raised *)
+Definition dfixb (cx : ctx) (d : dec) : option dec :=
+  if (dcoef d =? 0)%N
+  then Some (mkDec (dneg d) 0 (Z.min (Z.max (dexp d) (etiny cx)) emax))
+  else
+    let n := Z.of_N (ndigits (dcoef d)) in
+    let exp_min0 := (n + dexp d - Z.of_N (cprec cx))%Z in
+    if (etop cx <? exp_min0)%Z then None
+    else
+      let exp_min := Z.max exp_min0 (etiny cx) in
+      if (dexp d <? exp_min)%Z then
+        let c' := round_drop_f (crnd cx) (dcoef d) (Z.to_N (exp_min - dexp d)) in
+        if (ndigits c' <=? cprec cx)%N then Some (mkDec (dneg d) c' exp_min)
+        else if (etop cx <? exp_min + 1)%Z then None
+             else Some (mkDec (dneg d) (c' / 10)%N (exp_min + 1))
+      else Some d.
+
+(* aligned signed coefficient; a zero needs no power of ten *)
+Definition svalz (d : dec) (e : Z) : Z := if (dcoef d =? 0)%N then 0%Z else sval d e.
+
+(* the exact results the operations round *)
+Definition dadd_exact (a b : dec) : dec :=
+  let e := Z.min (dexp a) (dexp b) in
+  let z := (svalz a e + svalz b e)%Z in
+  let neg := if (z =? 0)%Z then dneg a && dneg b else (z <? 0)%Z in
+  mkDec neg (Z.abs_N z) e.
+
+Definition dmul_exact (a b : dec) : dec :=
+  mkDec (xorb (dneg a) (dneg b)) (dcoef a * dcoef b)%N (dexp a + dexp b)%Z.
+
+(* the quotient before _fix (floor quotient with sticky digit, or exact and stripped) *)
+Definition ddiv_exact (cx : ctx) (a b : dec) : option dec :=
+  if (dcoef b =? 0)%N then None
+  else
+    let sign := xorb (dneg a) (dneg b) in
+    let ideal := (dexp a - dexp b)%Z in
+    if (dcoef a =? 0)%N then Some (mkDec sign 0 ideal)
+    else
+      let shift := (Z.of_N (ndigits (dcoef b)) - Z.of_N (ndigits (dcoef a))
+                    + Z.of_N (cprec cx) + 1)%Z in
+      let e := (ideal - shift)%Z in
+      let num := if (0 <=? shift)%Z then (dcoef a * pow10 (Z.to_N shift))%N else dcoef a in
+      let den := if (0 <=? shift)%Z then dcoef b else (dcoef b * pow10 (Z.to_N (- shift)))%N in
+      let q := (num / den)%N in
+      let r := (num mod den)%N in
+      let ce := if (r =? 0)%N then strip0 (S (N.to_nat (N.log2 q))) q e ideal
+                else (if (q mod 5 =? 0)%N then N.succ q else q, e) in
+      Some (mkDec sign (fst ce) (snd ce)).
+
+(* the context operations; None = an ArithmeticError (Overflow, or division by zero) *)
+Definition daddb (cx : ctx) (a b : dec) : option dec := dfixb cx (dadd_exact a b).
+Definition dsubb (cx : ctx) (a b : dec) : option dec := daddb cx a (dneg_of b).
+Definition dmulb (cx : ctx) (a b : dec) : option dec := dfixb cx (dmul_exact a b).
+Definition ddivb (cx : ctx) (a b : dec) : option dec :=
+  match ddiv_exact cx a b with Some x => dfixb cx x | None => None end.
+
+(* Decimal._cmp: zeros and signs first, then adjusted exponents, and only for
+   equal adjusted exponents the aligned coefficients *)
+Definition dcmp (a b : dec) : comparison :=
+  if (dcoef a =? 0)%N then
+    (if (dcoef b =? 0)%N then Eq else if dneg b then Gt else Lt)
+  else if (dcoef b =? 0)%N then (if dneg a then Lt else Gt)
+  else if negb (Bool.eqb (dneg a) (dneg b)) then (if dneg a then Lt else Gt)
+  else if (adjusted a <? adjusted b)%Z then (if dneg a then Gt else Lt)
+  else if (adjusted b <? adjusted a)%Z then (if dneg a then Lt else Gt)
+  else dcompare a b.
+
+Definition py_max_f (a b : dec) : dec := match dcmp b a with Gt => b | _ => a end.
+Definition py_min_f (a b : dec) : dec := match dcmp b a with Lt => b | _ => a end.
+
+Definition clamp_f (omin omax : option dec) (v : dec) : dec :=
+  let v1 := match omin with Some m => py_max_f m v | None => v end in
+  match omax with Some M => py_min_f M v1 | None => v1 end.
+
+Definition to_integral_f (m : rmode) (d : dec) : dec :=
+  if (0 <=? dexp d)%Z then d
+  else mkDec (dneg d) (round_drop_f m (dcoef d) (Z.to_N (- dexp d))) 0.
+
+Definition is_integral_f (m : rmode) (d : dec) : bool :=
+  match dcmp d (to_integral_f m d) with Eq => true | _ => false end.
+
+(* int(Decimal); int(Decimal("0E+1000000")) is 0 without a power of ten *)
+Definition dec_to_Z_f (d : dec) : Z := if (dcoef d =? 0)%N then 0%Z else dec_to_Z d.
+
+(* `val and val.adjusted() > LARGEST_EXPONENT` *)
+Definition too_big (d : dec) : bool := negb (dcoef d =? 0)%N && (308 <? adjusted d)%Z.
+
+(* float(Decimal) is finite iff |d| < 2^1024 - 2^970 (the midpoint between the largest
+   double and 2^1024 rounds to even, i.e. to infinity) *)
+Definition float_limit : dec := mkDec false (2 ^ 1024 - 2 ^ 970) 0.
+Definition float_finite (d : dec) : bool :=
+  match dcmp (mkDec false (dcoef d) (dexp d)) float_limit with Lt => true | _ => false end.
+
+(* offset + ((val - offset) / min_step).to_integral_value() * min_step in the
+   6-digit context; None = ArithmeticError, which the repaired code turns into FormatError *)
+Definition snap_decb (v off s : dec) : option dec :=
+  match dsubb ctx6 v off with
+  | None => None
+  | Some d =>
+      match ddivb ctx6 d s with
+      | None => None
+      | Some q =>
+          match dmulb ctx6 (to_integral_f HalfUp q) s with
+          | None => None
+          | Some m => daddb ctx6 off m
+          end
+      end
+  end.
+
+Definition snap (f : fmt) (omin : option dec) (v s : dec) : res cerr dec :=
+  let off := match omin with Some m => m | None => dzero end in
+  if is_integer_fmt f && is_integral_f HalfUp v && is_integral_f HalfUp off && is_integral_f HalfUp s
+  then Ok (dec_of_Z (snap_int (dec_to_Z_f v) (dec_to_Z_f off) (dec_to_Z_f s)))
+  else match snap_decb v off s with Some r => Ok r | None => Err FormatError end.
+
+Definition convert_number (f : fmt) (omin omax ostep : option dec) (r : reading)
+  : res cerr cval :=
+  match r with
+  | RReject | RNonFinite => Err FormatError
+  | RFin v =>
+      let v2 := clamp_f omin omax v in
+      if too_big v2 then Err FormatError
+      else
+        rbind (match ostep with
+               | Some s => if (dcoef s =? 0)%N then Ok v2 else snap f omin v2 s   (* `if char.minStep:` *)
+               | None => Ok v2
+               end)
+              (fun v3 =>
+                 if is_integer_fmt f then Ok (VInt (dec_to_Z_f (to_integral_f HalfEven v3)))
+                 else if float_finite v3 then Ok (VDec v3) else Err FormatError)
   end.
 
 (* s = str(val) as code points (only the bool format looks at it),
